@@ -1,11 +1,11 @@
 package main
 
 // Facts of property C18 (dial path of lib/attack.go, internal/resolver/resolver.go, attack.go):
-// what the correspondence cannot observe deterministically — that the round-robin counter,
-// the random source and the shared address slice are touched without any lock or atomic
-// operation, that the slice handed out by the cache is shuffled and compacted without a copy,
-// that the custom resolver's counter IS advanced atomically, and the order in which the
-// command composes DNSCaching and ConnectTo.
+// what the correspondence cannot observe deterministically — how the round-robin counter,
+// the random source and the address slice handed out by the cache are synchronised (atomic
+// add; mutex around the shuffle; copy before shuffle and compaction), that the custom
+// resolver's counter is advanced atomically, and the order in which the command composes
+// DNSCaching and ConnectTo.
 
 import (
 	"bytes"
@@ -99,6 +99,17 @@ func extractC18(f *facts) {
 	}
 	f.def("c18ConnectToMappedStmts", "List (List Nat)", leanBytesList(ctStmts))
 	f.def("c18ConnectToSyncCalls", "Nat", strconv.Itoa(c18SyncCalls(ct)))
+	// every mention of the counter field `.n` inside the dial closure (must be the atomic add only)
+	counterMentions := 0
+	if ct != nil {
+		ast.Inspect(ct, func(n ast.Node) bool {
+			if se, ok := n.(*ast.SelectorExpr); ok && se.Sel.Name == "n" {
+				counterMentions++
+			}
+			return true
+		})
+	}
+	f.def("c18ConnectToCounterMentions", "Nat", strconv.Itoa(counterMentions))
 	f.def("c18ConnectToFound", "Bool", leanBool(ct != nil))
 
 	// --- DNSCaching: from LookupHost to the dials
@@ -108,9 +119,17 @@ func extractC18(f *facts) {
 	swapBody := ""
 	assignsBetween := 0
 	foeAssign := ""
+	var assignTexts, neighbours []string
+	rngMentions := 0
 	if dn != nil {
+		ast.Inspect(dn, func(n ast.Node) bool {
+			if id, ok := n.(*ast.Ident); ok && id.Name == "rng" {
+				rngMentions++
+			}
+			return true
+		})
 		seenLookup, seenShuffle := false, false
-		for _, st := range dn.Body.List {
+		for idx, st := range dn.Body.List {
 			switch s := st.(type) {
 			case *ast.AssignStmt:
 				if len(s.Rhs) == 1 {
@@ -132,6 +151,7 @@ func extractC18(f *facts) {
 					for _, l := range s.Lhs {
 						if id, ok := l.(*ast.Ident); ok && id.Name == lookupVar {
 							assignsBetween++
+							assignTexts = append(assignTexts, c18Text(f.fset, s))
 						}
 					}
 				}
@@ -139,6 +159,9 @@ func extractC18(f *facts) {
 				if ce, ok := s.X.(*ast.CallExpr); ok {
 					if se, ok := ce.Fun.(*ast.SelectorExpr); ok && se.Sel.Name == "Shuffle" && len(ce.Args) == 2 {
 						seenShuffle = true
+						if idx > 0 && idx+1 < len(dn.Body.List) {
+							neighbours = []string{c18Text(f.fset, dn.Body.List[idx-1]), c18Text(f.fset, dn.Body.List[idx+1])}
+						}
 						shuffleArgs = c18Text(f.fset, ce.Args[0])
 						if fl, ok := ce.Args[1].(*ast.FuncLit); ok && len(fl.Body.List) == 1 {
 							swapBody = c18Text(f.fset, fl.Body.List[0])
@@ -152,6 +175,28 @@ func extractC18(f *facts) {
 	f.def("c18DnsShuffleLen", "List Nat", leanBytes(shuffleArgs))
 	f.def("c18DnsShuffleSwap", "List Nat", leanBytes(swapBody))
 	f.def("c18DnsAssignsBeforeShuffle", "Nat", strconv.Itoa(assignsBetween))
+	f.def("c18DnsAssignTextsBeforeShuffle", "List (List Nat)", leanBytesList(assignTexts))
+	f.def("c18DnsShuffleNeighbours", "List (List Nat)", leanBytesList(neighbours))
+	f.def("c18DnsRngMentions", "Nat", strconv.Itoa(rngMentions))
+	// declaration of the mutex in the option (outside the dial closure)
+	mutexDecl := ""
+	if fd := funcDecl(file, "", "DNSCaching"); fd != nil {
+		ast.Inspect(fd, func(n ast.Node) bool {
+			if ds, ok := n.(*ast.DeclStmt); ok {
+				if gd, ok := ds.Decl.(*ast.GenDecl); ok {
+					for _, sp := range gd.Specs {
+						if vs, ok := sp.(*ast.ValueSpec); ok && vs.Type != nil && len(vs.Names) == 1 {
+							if t := c18Text(f.fset, vs.Type); strings.Contains(t, "Mutex") {
+								mutexDecl = vs.Names[0].Name + " " + t
+							}
+						}
+					}
+				}
+			}
+			return true
+		})
+	}
+	f.def("c18DnsMutexDecl", "List Nat", leanBytes(mutexDecl))
 	f.def("c18DnsFoeAssign", "List Nat", leanBytes(foeAssign))
 	f.def("c18DnsSyncCalls", "Nat", strconv.Itoa(c18SyncCalls(dn)))
 
